@@ -238,6 +238,20 @@ func c19Exec(t *testing.T, scn c19Scenario, ch *mc.Chooser) (rec c19Rec, machine
 				sp, err := ro.StartPoint(context.Background(), []string{aofRunID, biRunID2})
 				setPark(true)
 				if err != nil {
+					unreachable := false
+					for _, st := range append(append([]string{}, scn.Init...), scn.Topo...) {
+						if strings.HasPrefix(st, "X") {
+							unreachable = true
+						}
+					}
+					if unreachable {
+						// a node of the cluster refuses connections: the restart cannot even read its
+						// position. The tool would try again later; nothing more is executed in this
+						// history, which is judged on what the cluster executed so far (not 'healthy').
+						rec.Events = append(rec.Events, "restart could not start: "+err.Error())
+						rec.RunErrs = append(rec.RunErrs, "restart could not start: "+err.Error())
+						return
+					}
 					machinery = "restart: StartPoint failed: " + err.Error()
 					return
 				}
